@@ -264,7 +264,7 @@ def cycle_kinds(xml):
     """Which kinds of cyclic requirement the (mutated) model text contains: the trigger sets of the stack-overflow
     findings.  Reads the text the way the loader does (first child of a name, href with or without '#')."""
     try:
-        doc = xf.Doc(xml)
+        doc = xf.Doc(xml, lenient=True)
     except (xf.XmlError, RecursionError):
         return []
     if doc.root is None:
@@ -346,7 +346,7 @@ def recursive_functions(xml):
     """Names of knowledge models whose body text calls (directly or through other knowledge models) itself: the trigger
     set of the user-level unbounded recursion finding (textual call graph: `name(` inside the encapsulated logic)."""
     try:
-        doc = xf.Doc(xml)
+        doc = xf.Doc(xml, lenient=True)
     except (xf.XmlError, RecursionError):
         return []
     if doc.root is None:
@@ -607,7 +607,8 @@ def setup(ctx):
                 "and a wrong-typed input for every invocable name of the unmutated and mutated model. oracle: any error or value passes; panic, process death "
                 "(re-run alone in a fresh driver) or hang (re-run alone 3x with 10x budget) fails. non-trivial: the mutated text is still "
                 "well-formed XML according to expat (the fault reached the DMN layer); distinct by (base, faults)")
-    ctx.assumptions = ["expat's well-formedness verdict is used only for the non-triviality count, never for the verdict",
+    ctx.assumptions = ["expat's well-formedness verdict is used only for the non-triviality count, never for the verdict (roxmltree 0.14 "
+                       "also accepts documents whose last elements are not closed: such truncated texts are counted as trivial although they load)",
                        "texts that are not valid UTF-8 cannot reach dmntk_model::parse(&str); corrupted bytes are decoded with U+FFFD",
                        "SIGABRT/SIGSEGV of the driver while the mutated model contains a cyclic requirement is attributed to that cycle"]
     ctx.p_single = ctx.register(Part("single", None, reqs_probe, judge_probe, profile="both"))
